@@ -225,7 +225,11 @@ func headerParams(pkg *packages.Package, fd *ast.FuncDecl) map[string]bool {
 		return nil
 	}
 	out := map[string]bool{}
-	for _, fl := range fd.Type.Params.List {
+	fields := fd.Type.Params.List
+	if fd.Recv != nil {
+		fields = append(append([]*ast.Field{}, fd.Recv.List...), fields...)
+	}
+	for _, fl := range fields {
 		for _, n := range fl.Names {
 			o := pkg.TypesInfo.Defs[n]
 			if o == nil {
